@@ -1,5 +1,6 @@
 import XmppVerif.Drv.Core
 import XmppVerif.Model.C13
+import XmppVerif.Model.C19
 namespace XmppVerif.Drv.C13
 open XmppVerif.Model.C13 XmppVerif.Util XmppVerif.Drv
 
@@ -70,6 +71,16 @@ def step (_ : Unit) (fields : List String) (impl : String) : Unit × Reply :=
         " gaveup=" ++ boolStr r.gaveUp ++ " firstfailed=" ++ boolStr r.firstFailed
       ((), ⟨ms, ok, true, ok, "-"⟩)
     | _, _ => ((), .bad)
+  | ["outage", n] =>
+    -- the waits of an outage of n failed attempts (default back-off): none panics or is negative, none exceeds the cap
+    -- (Props.C19.C19_le_cap: the model's wait is at most the cap for every attempt number)
+    match n.toNat? with
+    | some _ =>
+      let m := kvs impl
+      let cap := (XmppVerif.Model.C19.setDefault XmppVerif.Model.C19.supervisorCfg).cap
+      let ok := str m "bad" == "-" && nat m "maxms" ≤ cap
+      ((), ⟨"bad=- maxms<=" ++ toString cap, ok, true, ok, "-"⟩)
+    | none => ((), .bad)
   | _ => ((), .bad)
 
 def handler : Handler := ⟨Unit, fun _ => (), step⟩
